@@ -6,8 +6,10 @@
  linform              — A11(b): integer linear form of an expression built from checked_add/checked_sub/neg
  weak_orders          — all total preorders of a few opaque values
  finite_eval          — A10: evaluate a decision table under a preorder + boolean valuation
- arg_bool             — A6: shape of a boolean argument
- reach_prims          — A7: rounding primitives reached from a function through the local call graph
+ expr_at / arg_at     — value provenance from REACHING definitions at a program point (no path enumeration)
+ paths_inlined        — decision table with a tail-called private helper's table substituted
+ vcalls               — call sites of a function AND of the private helpers / local closures it enters (lazy, translated)
+ inline_calls         — substitute single-path private helpers / closures inside an expression
 """
 import itertools
 import re
@@ -721,11 +723,14 @@ def _helper_target(prog, root, short, cs, args):
 
 class VCall:
     """A call site seen from a root function: either one of its own calls or a call inside a private helper / local closure it
-    enters (up to `depth` levels), with argument expressions and guards translated into the root's vocabulary."""
-    __slots__ = ("cs", "args", "guards", "chain")
+    enters (up to `depth` levels), with argument expressions and guards translated into the root's vocabulary.
+    Arguments and guards are computed lazily (only rules' selected sites pay for expression reconstruction)."""
+    __slots__ = ("cs", "chain", "_subs", "_args", "_guards")
 
-    def __init__(self, cs, args, guards, chain):
-        self.cs, self.args, self.guards, self.chain = cs, args, guards, chain
+    def __init__(self, cs, chain, subs):
+        self.cs, self.chain, self._subs = cs, chain, subs      # subs: substitutions, innermost first
+        self._args = {}
+        self._guards = None
 
     @property
     def short(self):
@@ -739,8 +744,34 @@ class VCall:
     def depth(self):
         return len(self.chain) - 1
 
+    def _tr(self, e):
+        for sub in self._subs:
+            e = sub(e)
+        return e
+
     def arg(self, i):
-        return self.args[i] if i < len(self.args) else named("<no-arg>")
+        if i not in self._args:
+            self._args[i] = self._tr(arg_at(self.cs, i)) if 0 <= i < len(self.cs.args) else named("<no-arg>")
+        return self._args[i]
+
+    @property
+    def args(self):
+        return [self.arg(i) for i in range(len(self.cs.args))]
+
+    @property
+    def guards(self):
+        if self._guards is None:
+            out = []
+            # guards at every level of the chain: level k is translated by the substitutions of the levels above it
+            n = len(self.chain)
+            for k, c in enumerate(self.chain):
+                subs = self._subs[n - 1 - k:]
+                for g, t in bool_guards_at(c.fn, c.bb):
+                    for sub in subs:
+                        g = sub(g)
+                    out.append((g, t))
+            self._guards = out
+        return self._guards
 
     def guard(self, cond_re, tr=None):
         """truth of the first guard whose (optionally transformed) rendering matches cond_re, else None"""
@@ -751,6 +782,34 @@ class VCall:
 
     def where(self):
         return self.chain[0].where()
+
+
+class _LazySub:
+    """Substitution of a helper's parameters / a closure's captures by the caller's argument expressions, built on first use."""
+
+    def __init__(self, prog, root, c):
+        self.prog, self.root, self.c, self._f = prog, root, c, None
+
+    def __call__(self, e):
+        if self._f is None:
+            args = [arg_at(self.c, i) for i in range(len(self.c.args))]
+            tgt = _helper_target(self.prog, self.root, self.c.short, self.c, args)
+            self._f = tgt[1] if tgt is not None else (lambda x: x)
+        return self._f(e)
+
+
+def _helper_body(prog, root, c):
+    """Body entered by call site c of root (private helper or local closure), without building argument expressions unless needed."""
+    if c.short in CLOSURE_CALLS and len(c.args) == 2:
+        a0 = arg_at(c, 0)
+        if a0.k == "closure":
+            body = prog.fns.get(a0.a[0])
+            return body if body is not None and body.crate == root.crate else None
+        return None
+    gs = [g for g in prog.callees(c) if is_private_helper(g, root)]
+    if len(gs) != 1 or gs[0].id == root.id:
+        return None
+    return gs[0]
 
 
 _VCALL_CACHE = {}
@@ -764,17 +823,15 @@ def vcalls(prog, f, depth=2):
     for c in f.calls:
         if f.blocks[c.bb].get("cleanup"):
             continue
-        args = [arg_at(c, i) for i in range(len(c.args))]
-        guards = bool_guards_at(f, c.bb)
-        out.append(VCall(c, args, guards, (c,)))
+        out.append(VCall(c, (c,), ()))
         if depth <= 0:
             continue
-        tgt = _helper_target(prog, f, c.short, c, args)
-        if tgt is None:
+        g = _helper_body(prog, f, c)
+        if g is None:
             continue
-        g, sub = tgt
+        sub = _LazySub(prog, f, c)
         for v in vcalls(prog, g, depth - 1):
-            out.append(VCall(v.cs, [sub(a) for a in v.args], guards + [(sub(x), t) for x, t in v.guards], (c,) + v.chain))
+            out.append(VCall(v.cs, (c,) + v.chain, v._subs + (sub,)))
     _VCALL_CACHE[key] = out
     return out
 
@@ -800,19 +857,33 @@ def inline_calls(prog, root, e, want_re, depth=2):
     expression with parameters / captures substituted. Calls to other helpers stay as they are."""
     if depth <= 0:
         return e
+    memo = {}
+    mention = {}
 
-    def f(x):
-        if x.k != "call":
-            return None
-        args = [inline_calls(prog, root, a, want_re, depth) for a in x.a[1]]
-        tgt = _helper_target(prog, root, x.a[0], callsite(x), args)
-        if tgt is None:
-            return None
-        g, sub = tgt
-        if not _body_mentions(prog, g, want_re, depth - 1):
-            return None
-        vps = [p for p in paths(g) if not p.diverges and retkind(p.ret) == "value"]
-        if len(vps) != 1:
-            return None
-        return inline_calls(prog, root, sub(vps[0].ret), want_re, depth - 1)
-    return rebuild(e, f)
+    def mentions(g):
+        if g.id not in mention:
+            mention[g.id] = _body_mentions(prog, g, want_re, depth - 1)
+        return mention[g.id]
+
+    def go(x):
+        k = id(x)
+        if k in memo:
+            return memo[k]
+        r = None
+        if x.k == "call":
+            cs = callsite(x)
+            cand = x.a[0] in CLOSURE_CALLS or (cs is not None and any(is_private_helper(g, root) for g in prog.callees(cs)))
+            if cand:
+                args = [go(a) for a in x.a[1]]
+                tgt = _helper_target(prog, root, x.a[0], cs, args)
+                if tgt is not None:
+                    g, sub = tgt
+                    if mentions(g):
+                        vps = [p for p in paths(g) if not p.diverges and retkind(p.ret) == "value"]
+                        if len(vps) == 1:
+                            r = inline_calls(prog, root, sub(vps[0].ret), want_re, depth - 1)
+        if r is None:
+            r = rebuild(x, lambda y: None if y is x else go(y))
+        memo[k] = r
+        return r
+    return go(e)
